@@ -227,6 +227,38 @@ func errRetryKind(rel, leanName string) func() string {
 	}
 }
 
+// ifEndsWithContinue reports whether the body of the unique `if` in fn whose condition contains every marker ends in `continue`.
+func ifEndsWithContinue(rel, fn string, markers []string, leanName string) func() string {
+	return func() string {
+		fd := mustFunc(rel, fn)
+		ss := findStmts(fd, func(s ast.Stmt) bool {
+			i, ok := s.(*ast.IfStmt)
+			if !ok {
+				return false
+			}
+			c := src(i.Cond)
+			for _, m := range markers {
+				if !strings.Contains(c, m) {
+					return false
+				}
+			}
+			return true
+		})
+		if len(ss) != 1 {
+			panic(bail{fmt.Sprintf("%s: expected exactly one `if` mentioning %v in %s, found %d", rel, markers, fn, len(ss))})
+		}
+		i := ss[0].(*ast.IfStmt)
+		v := "false"
+		if n := len(i.Body.List); n > 0 {
+			if b, ok := i.Body.List[n-1].(*ast.BranchStmt); ok && b.Tok == token.CONTINUE && b.Label == nil {
+				v = "true"
+			}
+		}
+		return fmt.Sprintf("/-- generated from %s func %s: does the body of `if %s` end in `continue` (back to the loop test, no range computed in this iteration)? -/\ndef %s : Bool := %s\n",
+			rel, fn, src(i.Cond), leanName, v)
+	}
+}
+
 func init() {
 	f := "scanner/fetcher.go"
 	ign := []string{"klog."}
@@ -236,6 +268,7 @@ func init() {
 		{"genRanges.loop", forCondKernel(f, "Fetcher.genRanges", []string{"start < end"}, "genRangesMore", "(start_ end_ : Int) (continuous : Bool)",
 			Spec{Kind: "i64", Repl: map[string]string{"f.opts.Continuous": "continuous"}})},
 		{"genRanges.atEnd", condKernel(f, "Fetcher.genRanges", []string{"start", "end"}, "genRangesAtEnd", "(start_ end_ : Int)", i64)},
+		{"genRanges.atEndContinues", ifEndsWithContinue(f, "Fetcher.genRanges", []string{"start", "end"}, "genRangesAtEndContinues")},
 		{"genRanges.batchEnd", assignKernel(f, "Fetcher.genRanges", "batchEnd", "genRangesBatchEnd", "(start_ end_ batch_ : Int)", "Int", i64)},
 		{"genRanges.next", assignKernel(f, "Fetcher.genRanges", "next", "genRangesNext", "(start_ batchEnd_ : Int)", "Int × Int", i64)},
 		{"genRanges.advance", assignKernel(f, "Fetcher.genRanges", "start", "genRangesAdvance", "(batchEnd_ : Int)", "Int", i64)},
